@@ -6,7 +6,7 @@ VERIF = os.path.dirname(os.path.dirname(os.path.abspath(__file__)))
 
 TRUSTED_BASE = [
     'T1 ISA specifications spec/isa_*.rs (step/run/encodable/encoded_len), hand-written from the vendor manuals the source links to; word-granular memory with non-wrapping byte addresses',
-    'T2 extraction rules R1-R11 of engine/extract.py (R3 derive(Structural), R4 static dispatch of `impl Trait for Backend`, R5 call-site specialisation of fn-pointer parameters, R6 desugaring of .iter()[.take(K)].enumerate() loops, R11 assumed derived clone)',
+    'T2 extraction rules R1-R13 of engine/extract.py (R3 derive(Structural), R4 static dispatch of `impl Trait for Backend`, R5 call-site specialisation of fn-pointer parameters, R6/R12/R13 desugaring of slice iterator chains (.enumerate/.take/.skip/.rev/.any) into index loops, R11 assumed derived clone)',
     'T3 impl Print/Display for Code/Register/Immediate: the printed text is assumed to denote the Code value',
     'T4 assembler, linker, libc, OS process conventions',
     'Verus 0.2026.09.13 + bundled Z3; rustc 1.98.1 front end',
@@ -89,7 +89,7 @@ PROPS = {
         'kill_units': ['x86_moves', 'a64_moves', 'rv64_moves'],
         'aux': ['native_moves'],
         'level': 'other',
-        'claim': 'Backend pieces of the parallel-moves algorithm (mov, store_temporary, restore_temporary) are proved by Verus for all placements; the generic forest algorithm, the reference-count dispatch and their composition through the real Substitute::code_statement are checked exhaustively for every map of m<=5 new to n<=5 old variables, every kind assignment and every window offset across each register/spill boundary on all three backends (m,n<=4 in the quick tier), by executing the emitted code on a machine model with distinct tokens. The exhaustive part is a bounded check, not a proof.',
+        'claim': 'Backend pieces of the parallel-moves algorithm (mov, store_temporary, restore_temporary) are proved by Verus for all placements, and the x86-64 analysis contains_spill_edge (mutual recursion over the spanning tree) is proved equal to an independent recursive definition of "some edge joins two spill slots"; the generic forest algorithm, the reference-count dispatch and their composition through the real Substitute::code_statement are checked exhaustively for every map of m<=5 new to n<=5 old variables, every kind assignment and every window offset across each register/spill boundary on all three backends (m,n<=4 in the quick tier), by executing the emitted code on a machine model with distinct tokens. The exhaustive part is a bounded check, not a proof.',
         'note': 'Bounded: spanning_forest/tree_moves use std BTreeMap/closures which neither Verus nor Kani reaches; correctness beyond the enumerated sizes is not decided. Trusted: machine models, token parametricity (T5).',
         'technique': 'Verus contracts on the backend move primitives + exhaustive bounded native contract check of the real Substitute::code_statement',
         'not_decided': 'correctness of spanning_forest for unbounded sizes',
